@@ -2,10 +2,11 @@
    ONLY statements; each is closed by [exact] of a lemma from Proofs/QuantileCI*.v.
    [quantile_ci] is the model of QuantileCI; for n <= 30 it is [qci_small P n x c], the greedy
    accumulation over P = the exact Binomial(n,q) PMF started at the lower mode x = [mode_x n q];
-   for n > 30 it is [qci_normal band n c l1 r1] where l1 = norm.InvCDF((1-c)/2), r1 = 2 mu - l1 and
+   for n > 30 it is [qci_normal band n c l1 r1] where l1 = norm.InvCDF(alpha), alpha = [qci_alpha c] =
+   (1-c)/2 capped at 1/2, r1 = 2 mu - l1 and
    band l r = Phi(r - 1/2) - Phi(l - 1/2) for the CDF Phi of the approximating normal. *)
 From MM Require Import Base.Num Base.GFSum Model.Choose Model.Binom Model.QuantileCI Check.C06 Check.C11
-                       Proofs.Binom Proofs.QuantileCI Proofs.QuantileCISet Proofs.QuantileCIScale Proofs.QuantileCILaws.
+                       Proofs.Binom Proofs.QuantileCI Proofs.QuantileCISet Proofs.QuantileCIScale Proofs.QuantileCILaws Proofs.QuantileCIExact Proofs.QuantileCISetScale.
 From Coq Require Import Sorted Permutation.
 Local Open Scope Q_scope.
 
@@ -224,6 +225,59 @@ Theorem C11_comparator_set_contains_model : forall (n : nat) (q : Q), 0 <= q <= 
 Proof. exact comparator_outs_contain_model. Qed.
 Print Assumptions C11_comparator_set_contains_model.
 
+(* ... and with the window switched off (the float-exact regime: n <= 20, q dyadic with e n <= 52, where
+   every float operation of the Go loop is exact) that set is EXACTLY ONE outcome, the model's: the
+   comparator is strict there (left bias, Ambiguous flags, stopping rule at exact ties). *)
+Theorem C11_comparator_set_exact : forall (n : nat) (q : Q), 0 <= q <= 1 ->
+  let N := Z.of_nat n in
+  let d := Zpos (Qden q) in
+  let Pw := scaled_pmf N (binom_weights N (Qnum q) (d - Qnum q)) in
+  forall e c g r, (0 <= e)%Z -> d = Z.shiftl 1 e ->
+  qci_graph Pw 0 N (mode_candidates N q true) = Some g ->
+  qci_small (binom_pmf_i N q) N (mode_x N q) c = Some r ->
+  exists r', small_outs Pw N g e true c = [r'] /\
+             r_lo r' = r_lo r /\ r_hi r' = r_hi r /\ r_amb r' = r_amb r /\
+             r_conf r' == inject_Z (d ^ N) * r_conf r.
+Proof. exact comparator_outs_exact. Qed.
+Print Assumptions C11_comparator_set_exact.
+
+(* The admissible-outcome SET itself is invariant under the common factor, for ANY window 1/ieps >= 0 and
+   any list of start candidates: on masses P' == D * P (own scale sc, level c' == sc D c) it is, outcome
+   by outcome in the same order, the set on P (scale sc0, level c0 == sc0 c) — same orders, same flags,
+   Confidence times D — and the two transition graphs exist together. *)
+Theorem C11_admissible_set_scale_invariant : forall (P P' : Z -> Q) (D ieps sc0 sc : Q),
+  0 < D -> 0 <= ieps -> 0 < sc0 -> 0 < sc -> (forall k, P' k == D * P k) ->
+  forall n xs c c0 c', c0 == sc0 * c -> c' == sc * (D * c) ->
+  match qci_graph P ieps n xs, qci_graph P' ieps n xs with
+  | Some g, Some g' =>
+      Forall2 (fun r r' => r_lo r' = r_lo r /\ r_hi r' = r_hi r /\ r_amb r' = r_amb r /\ r_conf r' == D * r_conf r)
+              (qci_small_set P ieps n g sc0 c0) (qci_small_set P' ieps n g' sc c')
+  | None, None => True
+  | _, _ => False
+  end.
+Proof. exact set_scale_invariant. Qed.
+Print Assumptions C11_admissible_set_scale_invariant.
+
+(* Hence what Check/C11.v computes on the integer masses IS the admissible set of the rational
+   Binomial(n,q) PMF at level c (scale 1), for either window. *)
+Theorem C11_comparator_set_is_rational_set : forall (n : nat) (q : Q), 0 <= q <= 1 ->
+  let N := Z.of_nat n in
+  let d := Zpos (Qden q) in
+  let Pq := binom_pmf_i N q in
+  let Pw := scaled_pmf N (binom_weights N (Qnum q) (d - Qnum q)) in
+  forall e (exact : bool) c, (0 <= e)%Z -> d = Z.shiftl 1 e ->
+  let eps := if exact then 0 else ieps_border in
+  match qci_graph Pq eps N (mode_candidates N q exact), qci_graph Pw eps N (mode_candidates N q exact) with
+  | Some g, Some g' =>
+      Forall2 (fun r r' => r_lo r' = r_lo r /\ r_hi r' = r_hi r /\ r_amb r' = r_amb r /\
+                           r_conf r' == inject_Z (d ^ N) * r_conf r)
+              (qci_small_set Pq eps N g 1 c) (small_outs Pw N g' e exact c)
+  | None, None => True
+  | _, _ => False
+  end.
+Proof. exact comparator_outs_are_rational_set. Qed.
+Print Assumptions C11_comparator_set_is_rational_set.
+
 (* ---------- non-vacuity ---------- *)
 Example C11_small_example :
   let run n q c := option_map (fun r => (r_lo r, r_hi r, Qred (r_conf r), r_amb r))
@@ -277,4 +331,37 @@ Proof. vm_compute. reflexivity. Qed.
 
 Example C11_sample_sorted_example :
   sample_ci 4 1 4 false true [1; 1; 2; 3] = SciOk (XFin 1) (XFin 3) [1; 1; 2; 3].
+Proof. vm_compute. reflexivity. Qed.
+
+Example C11_normal_hyps_example :
+  (* the hypotheses of C11_normal_conf_ge_c and C11_normal_orders hold for the ramp CDF (proved
+     non-decreasing: ramp_mono) at c = 2/5, l1 = 45.7, r1 = 54.3, mu = 50, n = 100 *)
+  ramp (457 # 10) <= qci_alpha (2 # 5) /\ 1 - qci_alpha (2 # 5) <= ramp (543 # 10) /\
+  (457 # 10) + (543 # 10) == 2 * 50 /\ (2 # 5) <= r_conf (qci_normal (band ramp) 100 (2 # 5) (457 # 10) (543 # 10)).
+Proof. vm_compute. repeat split; discriminate. Qed.
+
+Example C11_comparator_window_example :
+  (* n = 25, q = 1/2 (e = 1) is outside the float-exact regime: the window 2^-40 is on.  (n+1) q = 13 is
+     an integer, so the float mode may come out as 12 or 13 and the tie P(12) = P(13) may or may not be
+     seen: for c = 1/10 the set has three members; the model outcome [12, 13), Ambiguous, mass
+     5200300/2^25, is one of them *)
+  let Pw := scaled_pmf 25 (binom_weights 25 1 1) in
+  match qci_graph Pw ieps_border 25 (mode_candidates 25 (1 # 2) false) with
+  | Some g => let outs := map (fun r => (r_lo r, r_hi r, r_conf r, r_amb r)) (small_outs Pw 25 g 1 false (1 # 10)) in
+              length outs = 3%nat /\ In (12%Z, 13%Z, 5200300 # 1, true) outs
+  | None => False
+  end /\
+  option_map (fun r => (r_lo r, r_hi r, Qred (r_conf r), r_amb r))
+             (qci_small (binom_pmf_i 25 (1 # 2)) 25 (mode_x 25 (1 # 2)) (1 # 10)) = Some (12%Z, 13%Z, 1300075 # 8388608, true).
+Proof. vm_compute. split; [split; [reflexivity | left; reflexivity] | reflexivity]. Qed.
+
+Example C11_rational_set_example :
+  (* n = 25, q = 1/2, window on, c = 1/10: the set on the rational PMF has the same three outcomes as the
+     comparator's set on the integer masses (C11_comparator_window_example), Confidence 5200300/2^25 *)
+  let Pq := binom_pmf_i 25 (1 # 2) in
+  match qci_graph Pq ieps_border 25 (mode_candidates 25 (1 # 2) false) with
+  | Some g => map (fun r => (r_lo r, r_hi r, Qred (r_conf r), r_amb r)) (qci_small_set Pq ieps_border 25 g 1 (1 # 10)) =
+              [(12%Z, 13%Z, 1300075 # 8388608, true); (12%Z, 13%Z, 1300075 # 8388608, false); (13%Z, 14%Z, 1300075 # 8388608, false)]
+  | None => False
+  end.
 Proof. vm_compute. reflexivity. Qed.
